@@ -30,6 +30,11 @@ CLAIMED = {
          "For every core case with a >=2-field struct the real code is run under the canonical order and under every permutation at every struct visit (jointly across nesting levels and slice elements); issues for every key except $first and, on success, the destination must be identical; $first must be one of the issues. The instrumenter re-derives the list of range-over-map sites by type on every run and reports unhooked order-sensitive calls.",
          "Insertion order can only act through map iteration, which is hooked (sites listed in evidence). Runtime map internals are irrelevant once hooked.",
          "DESIGN.md section 4 C09"),
+
+ "C07": ("explicit-state BFS over pool states (histories replayed on the real code with every pool answer chosen by the explorer), closure of reachable free-object classes to a fixpoint, probes compared differentially with cleared pools",
+         "sync.Pool is replaced (overlay) by a pool whose Get answers the explorer enumerates. Phase A: BFS over canonical pool states reached by histories of 12 calls x 3 collect modes (depth 2, bounded non-LIFO answers). Phase A': closure - from the pool holding one copy of every distinct free-object class, every event is run with recycled objects injected, new classes are added, repeated to a fixpoint (reached). Phase B: each of 10 probes in every BFS state under LIFO plus bounded deviations. Phase C: each probe on the pre-filled union pool with every Get answered by fresh or any reachable dirty object (<=2 dirty objects per call). The probe's complete canonical observation (every issue field, aliasing between issues, $first, destination, ctx.Get values) must equal the probe on cleared pools.",
+         "Pool shim answers are exactly sync.Pool's contract; union-of-reachable-objects argument in DESIGN 3.5/4 C07; free-object class = object fields rendered to depth 4; cross-pool aliasing of prototypes is not preserved.",
+         "DESIGN.md section 4 C07"),
 }
 NOT_YET = "check not built yet in this round (work in progress; see DESIGN.md section 4)"
 def main():
